@@ -64,6 +64,12 @@
 // "cancel_stalled":{"q":1,"mode":"kill","full":true} (C07, shape
 // cancel-to-stalled-callee): the scripted scenario of cancelstalled_test.go.
 //
+// The realms' Authorizer refuses every SUBSCRIBE / REGISTER / CALL / PUBLISH
+// whose topic or procedure starts with "denied." (ERROR wamp.error.not_authorized).
+// "memstats":true sets Config.MemStatsLogSec.  After every Router.Close of a
+// history Close is called again (sequentially and from two goroutines), then
+// AddRealm / RemoveRealm: all must return without panic.
+//
 // close (C06 only): perform Close / RemoveRealm(realm) before ops[pos]
 // (pos==len(ops): at the end).  in_burst: release it together with ops[pos]
 // (all its ops if that is a burst).  After Router.Close the remaining ops are
@@ -116,6 +122,9 @@ type CloseSpec struct {
 	Realm   string `json:"realm"`
 	Pos     int    `json:"pos"`
 	InBurst bool   `json:"in_burst"`
+	// Concurrent: a second goroutine calls Router.Close at the same moment
+	// (only honoured when nothing in flight makes the close wait for time).
+	Concurrent bool `json:"concurrent,omitempty"`
 }
 
 // History is one generated or recorded input.
@@ -126,6 +135,7 @@ type History struct {
 	Shape           string        `json:"shape,omitempty"`
 	Template        bool          `json:"template,omitempty"`   // router has a RealmTemplate (realms are created on demand)
 	LocalAuth       bool          `json:"local_auth,omitempty"` // realms require authentication of local clients
+	MemStats        bool          `json:"memstats,omitempty"`   // Config.MemStatsLogSec is set (the router runs its memory-stats logger)
 	Realms          []string      `json:"realms"`
 	Sessions        []SessionSpec `json:"sessions"`
 	Ops             []Op          `json:"ops"`
